@@ -20,16 +20,27 @@ import subprocess
 VERIF = os.path.dirname(os.path.dirname(os.path.abspath(__file__)))
 PY = os.environ.get('VERIF_PYTHON', '/venv/bin/python')
 WORK = os.path.join(VERIF, '.work')
-LEDGER = os.path.join(VERIF, 'known_findings.jsonl')
+LEDGER = os.path.join(VERIF, 'known_findings.txt')
 
 
 def load_ledger():
+  """Lines 'open: property=<id> mech=<key> <what>' and 'fixed: property=<id> <commit> <what>'."""
   out = []
   if os.path.exists(LEDGER):
     for line in open(LEDGER):
       line = line.strip()
-      if line and not line.startswith('#'):
-        out.append(json.loads(line))
+      if not line or line.startswith('#'):
+        continue
+      status, _, rest = line.partition(':')
+      rest = rest.strip()
+      if status == 'open':
+        parts = rest.split(' ', 2)
+        out.append({'status': 'open', 'property': parts[0].split('=', 1)[1], 'mech': parts[1].split('=', 1)[1],
+                    'what': parts[2] if len(parts) > 2 else ''})
+      elif status == 'fixed':
+        parts = rest.split(' ', 2)
+        out.append({'status': 'fixed', 'property': parts[0].split('=', 1)[1], 'commit': parts[1],
+                    'what': parts[2] if len(parts) > 2 else ''})
   return out
 
 
